@@ -770,7 +770,7 @@ class Case:
                                   "TransformationGraph(lang, minimal=True, with_operators=True).add_expr(expr, BNode())"}
 
 
-def run_impl(case: Case) -> bool:
+def run_impl(case: Case) -> str | None:
     """Build the expression with the real library and run add_expr.  Returns None, or the
     reason why the case is not used (the expression cannot be built / is too large / is
     ill-typed after expansion: none of them a C08 matter)."""
@@ -933,7 +933,7 @@ def main(tier: str, seed: int, replay: str | None = None) -> int:
     build_cases(fixed_lang(), [(n, t, 2) for n, t in FIXED_TERMS], cases, skipped)
     nfixed = len(cases)
     # 2. random languages and expressions
-    nlang, per = (80, 10) if tier == "quick" else (400, 10)
+    nlang, per = (80, 10) if tier == "quick" else (1000, 10)
     for _ in range(nlang):
         lang = gen_lang(rng, third=(rng.random() < 0.15))
         ops = [(o["name"], o["type"]) for o in lang.ops]
